@@ -174,11 +174,13 @@ fn dump_scancode<S: ScancodeSet + Clone + std::fmt::Debug>(tag: &str, init: S) -
     let mut out = String::new();
     let mut ids: HashMap<String, usize> = HashMap::new();
     let mut states: Vec<S> = Vec::new();
+    let mut parents: Vec<(usize, u8)> = Vec::new();
     ids.insert(format!("{:?}", init), 0);
     states.push(init);
+    parents.push((0, 0));
     let mut i = 0;
     while i < states.len() {
-        writeln!(out, "S {} {} {:?}", tag, i, format!("{:?}", states[i])).unwrap();
+        writeln!(out, "S {} {} {} {} {:?}", tag, i, parents[i].0, parents[i].1, format!("{:?}", states[i])).unwrap();
         for b in 0..=255u8 {
             let mut s = states[i].clone();
             let r = guard(|| s.advance_state(b));
@@ -196,6 +198,7 @@ fn dump_scancode<S: ScancodeSet + Clone + std::fmt::Debug>(tag: &str, init: S) -
                         }
                         ids.insert(key, n);
                         states.push(s);
+                        parents.push((i, b));
                         n
                     }
                 }
@@ -267,12 +270,14 @@ fn dump_ps2() -> String {
 
     let mut ids: HashMap<String, usize> = HashMap::new();
     let mut paths: Vec<Vec<BitOp>> = Vec::new();
+    let mut parents: Vec<(usize, usize)> = Vec::new();
     ids.insert(format!("{:?}", Ps2Decoder::new()), 0);
     paths.push(vec![]);
+    parents.push((0, 0));
     let mut i = 0;
     while i < paths.len() {
         let here = ps2_replay(&paths[i]).expect("replay of a recorded path panicked");
-        writeln!(out, "S ps2 {} {:?}", i, format!("{:?}", here)).unwrap();
+        writeln!(out, "S ps2 {} {} {} {:?}", i, parents[i].0, parents[i].1, format!("{:?}", here)).unwrap();
         for op in [BitOp::Bit(false), BitOp::Bit(true), BitOp::Clear] {
             let mut d = ps2_replay(&paths[i]).unwrap();
             let r: Option<Result<Option<u8>, Error>> = match op {
@@ -298,6 +303,7 @@ fn dump_ps2() -> String {
                         let mut p = paths[i].clone();
                         p.push(op);
                         paths.push(p);
+                        parents.push((i, match op { BitOp::Bit(false) => 0, BitOp::Bit(true) => 1, BitOp::Clear => 2 }));
                         n
                     }
                 }
@@ -311,6 +317,144 @@ fn dump_ps2() -> String {
         }
         i += 1;
     }
+    // add_word takes &self: compare it in every reachable state with the initial state's answers
+    let base: Vec<Option<Result<u8, Error>>> = (0..=65535u16).map(|w| guard(|| dec.add_word(w))).collect();
+    let mut diffs = 0;
+    for (i, p) in paths.iter().enumerate() {
+        let d = ps2_replay(p).unwrap();
+        for w in 0..=65535u16 {
+            if guard(|| d.add_word(w)) != base[w as usize] {
+                if diffs < 20 {
+                    writeln!(out, "WD {} {}", i, w).unwrap();
+                }
+                diffs += 1;
+            }
+        }
+    }
+    writeln!(out, "WN {}", diffs).unwrap();
+    out
+}
+
+// ---------------------------------------------------------------------------------------
+// replay: evaluate one recorded input on the real crate
+
+fn key_by_name(n: &str) -> KeyCode {
+    *ALL_KEYS.iter().find(|k| format!("{:?}", k) == n).unwrap_or_else(|| panic!("unknown key {}", n))
+}
+fn mode_by_name(n: &str) -> HandleControl {
+    if n == "Ignore" { HandleControl::Ignore } else { HandleControl::MapLettersToUnicode }
+}
+fn kstate_by_name(n: &str) -> KeyState {
+    match n { "Up" => KeyState::Up, "Down" => KeyState::Down, _ => KeyState::SingleShot }
+}
+
+fn layout_call(obj: &str, k: KeyCode, m: &Modifiers, hc: HandleControl) -> Option<DecodedKey> {
+    let (form, name) = if let Some(r) = obj.strip_prefix("Any.") { (1, r) } else if let Some(r) = obj.strip_prefix("Ref.") { (2, r) } else { (0, obj) };
+    fn go<L: KeyboardLayout>(l: L, k: KeyCode, m: &Modifiers, hc: HandleControl) -> Option<DecodedKey> {
+        guard(|| l.map_keycode(k, m, hc))
+    }
+    macro_rules! one {
+        ($n:ident) => {
+            if name == stringify!($n) {
+                return match form {
+                    0 => go($n, k, m, hc),
+                    1 => go(AnyLayout::$n($n), k, m, hc),
+                    _ => { let any = AnyLayout::$n($n); go(&any, k, m, hc) }
+                };
+            }
+        };
+    }
+    for_layouts!(one);
+    panic!("unknown layout {}", name)
+}
+
+pub fn any_by_name(name: &str) -> AnyLayout {
+    macro_rules! one {
+        ($n:ident) => {
+            if name == stringify!($n) {
+                return AnyLayout::$n($n);
+            }
+        };
+    }
+    for_layouts!(one);
+    panic!("unknown layout {}", name)
+}
+
+/// AnyLayout has no Debug impl; this wrapper lets EventDecoder's derived Debug print the state.
+pub struct Dbg(pub AnyLayout);
+impl std::fmt::Debug for Dbg {
+    fn fmt(&self, f: &mut std::fmt::Formatter<'_>) -> std::fmt::Result {
+        f.write_str("AnyLayout")
+    }
+}
+impl KeyboardLayout for Dbg {
+    fn map_keycode(&self, keycode: KeyCode, modifiers: &Modifiers, handle_ctrl: HandleControl) -> DecodedKey {
+        self.0.map_keycode(keycode, modifiers, handle_ctrl)
+    }
+}
+
+fn replay(args: &[String]) -> String {
+    let mut out = String::new();
+    match args[0].as_str() {
+        "word" => {
+            let w: u16 = args[1].parse().unwrap();
+            let d = Ps2Decoder::new();
+            let r = guard(|| d.add_word(w)).map(|r| r.map(Some));
+            out.push_str(&ps2_token(&r));
+        }
+        "bits" => {
+            let mut d = Ps2Decoder::new();
+            let mut toks = Vec::new();
+            for c in args[1].chars() {
+                let r = match c {
+                    '0' => guard(|| d.add_bit(false)),
+                    '1' => guard(|| d.add_bit(true)),
+                    _ => guard(|| { d.clear(); Ok(None) }),
+                };
+                toks.push(ps2_token(&r));
+            }
+            out.push_str(&toks.join(" "));
+        }
+        "bytes" => {
+            let bytes: Vec<u8> = args[2].split(',').filter(|s| !s.is_empty()).map(|s| s.parse().unwrap()).collect();
+            let mut toks = Vec::new();
+            if args[1] == "set1" {
+                let mut s = ScancodeSet1::new();
+                for b in bytes { toks.push(sc_token(&guard(|| s.advance_state(b)))); }
+            } else {
+                let mut s = ScancodeSet2::new();
+                for b in bytes { toks.push(sc_token(&guard(|| s.advance_state(b)))); }
+            }
+            out.push_str(&toks.join(" "));
+        }
+        "layout" => {
+            let m = mods_of_bits(args[3].parse().unwrap());
+            let r = layout_call(&args[1], key_by_name(&args[2]), &m, mode_by_name(&args[4]));
+            out.push_str(&dk_token(&r));
+        }
+        "events" => {
+            // events <Layout> <Mode> op... ; op = Key:State | mode:<Mode> | layout:<Layout>
+            let mut d = EventDecoder::new(Dbg(any_by_name(&args[1])), mode_by_name(&args[2]));
+            let mut toks = Vec::new();
+            for op in &args[3..] {
+                let (a, b) = op.split_once(':').unwrap();
+                if a == "mode" {
+                    d.set_ctrl_handling(mode_by_name(b));
+                    toks.push("-".to_string());
+                } else if a == "layout" {
+                    d.change_layout(Dbg(any_by_name(b)));
+                    toks.push("-".to_string());
+                } else {
+                    let r = guard(|| d.process_keyevent(KeyEvent::new(key_by_name(a), kstate_by_name(b))));
+                    toks.push(match r { None => "P".to_string(), Some(None) => "none".to_string(), Some(Some(x)) => dk_token(&Some(x)) });
+                }
+            }
+            out.push_str(&toks.join(" "));
+            write!(out, " | {:?}", d).unwrap();
+        }
+        _ => panic!("unknown replay kind"),
+    }
+    out.push('\n');
     out
 }
 
@@ -546,6 +690,7 @@ fn main() {
         ("dump", Some("ps2")) => dump_ps2(),
         ("dump", Some("event")) => dump_event(),
         ("seq", _) => seq::main(&args[2..]),
+        ("replay", _) => replay(&args[2..]),
         _ => {
             eprintln!("{}", usage);
             std::process::exit(2);
